@@ -213,9 +213,9 @@ func c18Cases(tier string) []c18Case {
 				}
 			}
 			// indexing
-			if rs.T.K == tList || (rs.T.K == tStr && utf8.RuneCountInString(recv.S) == len(recv.S)) {
+			if rs.T.K == mkList || (rs.T.K == tStr && utf8.RuneCountInString(recv.S) == len(recv.S)) {
 				ret := mtStr
-				if rs.T.K == tList {
+				if rs.T.K == mkList {
 					ret = rs.T.Elem
 				}
 				for _, i := range indexSet(recvLen(recv)) {
@@ -843,7 +843,7 @@ func c18Program(c c18Case) (text string, ok bool) {
 		var at *mtype
 		if st, ok := staticType(a); ok && !st.hasWildcard() {
 			at = st
-		} else if a.K == mList && c.T.K == tList {
+		} else if a.K == mList && c.T.K == mkList {
 			// an (empty) list argument has the receiver's type (concat) or its element type
 			at = c.T
 			if c.Member != "concat" {
